@@ -5,12 +5,14 @@ LeadIterAgrees == Lead(IterAgrees)
 LeadSourceIsNewest == Lead(SourceIsNewest)
 \* random walks: the shape, the bounds and the program are drawn at random
 SimInit == /\ segs = <<>> /\ ll = {} /\ sb = 0 /\ eb = 2 * N + 2 /\ kind = "unset" /\ sidx = 0
+           /\ incDel = FALSE /\ skipLL = FALSE
            /\ cur = [i \in 0..MaxSegs |-> Done] /\ calls = 0 /\ hist = <<>>
 SimChoose ==
     /\ kind = "unset"
     /\ segs' = [i \in 1..RandomElement(0..MaxSegs) |-> [k \in Keys |-> RandomElement({"none", "set", "set", "del"})]]
     /\ ll' = IF WithLL THEN RandomElement(SUBSET Keys) ELSE {}
     /\ sb' = RandomElement(0..(2 * N + 1)) /\ eb' = RandomElement(1..(2 * N + 2))
+    /\ incDel' = RandomElement(IncDelSet) /\ skipLL' = RandomElement(SkipLLSet)
     /\ kind' = "none"
     /\ UNCHANGED <<sidx, cur, calls, hist>>
 SimNext == SimChoose \/ Next
